@@ -8,6 +8,7 @@ def obligations(tier):
         k_api.obligation(tier, {"C16"}, "O16.4 end to end: summary() lists exactly the kept features; last viable history combination induces the fitted row partition; one raw-distribution entry",
                          ["BinaryCarver", "ContinuousCarver"], ns=[4], max_pats=6 if quick else 14, companions=not quick),
         k_select.obligation(tier, {"C16"}, "O16.1 history: every tested combination with its measure, exactly one flagged viable per search = the fitted grouping, later ones 'Not checked'", "abstract"),
+        k_select.obligation_cont(tier, {"C16"}, "O16.1b history of a ContinuousCarver: same flags/ordering obligations"),
         k_transform.obligation(tier, {"C16"}, "O16.2 summary of a quantitative feature: one row per fitted group, NaN shown in the group it was merged into", ms=[2, 3, 4] if tier == "quick" else [2, 3, 4, 5]),
         k_qualitative.obligation(tier, {"C16"}, "O16.3 summary of a qualitative feature: (label, content) rows partition the known values and agree with transform"),
     ]
